@@ -64,12 +64,16 @@ def gen_case(rng, k, big, only=None):
         if not fd and n > 400:
             n = rng.randint(9, 120)
         biv = rng.choice([None, None, 0.01, 0.02, 0.05, 0.1, 0.19])
+    ps = da
+    if not fd and da == 255 and rng.random() < 0.4:
+        # a PDU2 group (any group extension) travels as a broadcast as well: theorem C01_bam_closed_loop_delivers_pdu1_and_pdu2
+        pf, ps = rng.randint(240, 255), rng.choice([0, 0xCA, 255, rng.randrange(256)])
     second = None
     if da != 255 and only != 'mpg' and rng.random() < 0.35:
         # a second transfer on the same pair once the first has completed (theorem C10_sequence_of_transfers_all_deliver)
         second = dict(n=(rng.choice([61, 120, 121]) if rng.random() < 0.3 else rng.randint(61, 300)) if fd else rng.choice(SIZES[:8]) if rng.random() < 0.3 else rng.randint(9, 80), dp=rng.choice([0, 1]), prio=rng.randint(0, 7),
                       pf=rng.choice([x for x in range(0, 240) if x not in (0xEA, 0xEB, 0xEC, 0xEE, 0x4D, 0x4E, 0x25)]), seed=rng.getrandbits(30))
-    return dict(second=second, biv=biv, n=n, sa=sa, da=da, pf=pf, dp=rng.choice([0, 0, 1]), prio=rng.randint(0, 7),
+    return dict(second=second, biv=biv, n=n, sa=sa, da=da, ps=ps, pf=pf, dp=rng.choice([0, 0, 1]), prio=rng.randint(0, 7),
                 wa=rng.choice(WINDOWS + [rng.randint(1, 255)]), wb=rng.choice(WINDOWS + [rng.randint(1, 255)]),
                 lat=rng.choice([1, 500]), seed=rng.getrandbits(30), fnone=rng.random() < 0.3, fd=fd)
 
@@ -84,7 +88,7 @@ def scenario(c):
                   for g in c['mpg']]
         return dict(stacks=stacks, lat=[c['lat']], jit=[1], script=script, horizon=1000 + min(g['tl'] for g in c['mpg']) + 3_000_000)
     npk = (c['n'] + 6) // 7
-    script = [dict(t=1000, s=0, op='send', a=[c['dp'], c['pf'], c['da'], c['prio'], c['sa'], dict(seed=c['seed'], len=c['n'])])]
+    script = [dict(t=1000, s=0, op='send', a=[c['dp'], c['pf'], c.get('ps', c['da']), c['prio'], c['sa'], dict(seed=c['seed'], len=c['n'])])]
     if c.get('second'):
         g = c['second']
         script.append(dict(t=1000 + npk * 12000 + 2_000_000, s=0, op='send', a=[g['dp'], g['pf'], c['da'], g['prio'], c['sa'], dict(seed=g['seed'], len=g['n'])]))
@@ -131,7 +135,7 @@ def model_text(c, data, data2=None):
         b = 'subscribe (%s) 9 FNone' % b
     npk = (c['n'] + 6) // 7
     fuel = 3 * npk + 12
-    s0 = '(net_send (net0 (%s) (%s) 1000) %d %d %d %d %d %s)' % (a, b, c['dp'], c['pf'], c['da'], c['prio'], c['sa'], C.zl(data))
+    s0 = '(net_send (net0 (%s) (%s) 1000) %d %d %d %d %d %s)' % (a, b, c['dp'], c['pf'], c.get('ps', c['da']), c['prio'], c['sa'], C.zl(data))
     # broadcasts: the model's time of every frame after the announcement (theorems C09_bam_closed_loop_paced / C09_fd_...)
     timed = ' ++ [[-3]] ++ [map fst (tlog %d%%nat %s)]' % (fuel, s0) if c['da'] == 255 else ''
     if c.get('second'):
